@@ -324,7 +324,7 @@ class SeekableStreamReaderWrapper(TellableStreamWrapper):
 
     async def seek(self, offset: int) -> None:
         if offset > self.position:
-            await self.stream.read(offset - self.position)
+            await self.read(offset - self.position)
             self.position = offset
         elif offset < self.position:
             raise tarfile.ReadError("Cannot seek backward with streams")
